@@ -7,6 +7,7 @@ import (
 	"verif/internal/explore"
 	"verif/internal/gen"
 	"verif/internal/oracle"
+	"verif/internal/world"
 )
 
 var apiAssumptions = []string{
@@ -100,6 +101,11 @@ func snapshotCheck(prop string, mod func(*gridOpts), extraRule string) int {
 		c12CensusClause(rep)
 	}
 	lagPhases(rep, prop)
+	if prop == "C07" {
+		// update deletes that fail or find the pod gone (a concurrent delete), and pod creates that fail
+		faultPhase(rep, "C07", []string{world.FGone, world.FErr500, world.FTimeout},
+			func(c *world.Call) bool { return c.Resource == "pods" && (c.Verb == "delete" || c.Verb == "create") }, time.Now().Add(3*time.Minute))
+	}
 	return rep.Finish()
 }
 
